@@ -8,7 +8,8 @@ for n in $NAMES; do
   D=/verif/seeded/$n
   [ -f $D/patch.diff ] || continue
   prop=$(python3 -c "import json;print(json.load(open('$D/meta.json'))['breaks_property'])")
-  git -C $WT checkout -q -- . ; git -C $WT apply $D/patch.diff || { echo "$n: patch does not apply"; continue; }
+  base=$(python3 -c "import json;print(json.load(open('$D/meta.json')).get('base_commit','HEAD'))")
+  git -C $WT checkout -q -- . ; git -C $WT checkout -q --detach $base; git -C $WT apply $D/patch.diff || { echo "$n: patch does not apply"; continue; }
   mkdir -p /tmp/seedout/$n
   out=$(cd /verif && VERIF_REPO=$WT VERIF_OUT=/tmp/seedout/$n ./check $prop 2>&1); rc=$?
   kinds=$(echo "$out" | grep -E "^  monitor" | sed 's/ cases=.*//' | sort -u | tr '\n' ';' | cut -c1-600)
